@@ -305,9 +305,9 @@ def canvas_validate(pid, v, scs, name, count_tags, workers=12, timeout=3000, onl
     return found
 
 
-def canvas_gen(pid, v, focus, D, ndraw, draws=1, initk="distinct", simulate=None, depth=None, seed=None, salt=0):
+def canvas_gen(pid, v, focus, D, ndraw, draws=1, initk="distinct", simulate=None, depth=None, seed=None, salt=0, size=(5, 5)):
     env = {"FOCUS": focus, "D": D, "NDRAW": ndraw, "DRAWS": draws, "INITK": initk, "SALT": salt,
-           "EMITFULL": 1 if simulate else 0}
+           "EMITFULL": 1 if simulate else 0, "W": size[0], "H": size[1]}
     g, scs = gen_scenarios(pid, "Gen_Canvas", env=env, simulate=simulate, depth=depth, seed=seed,
                            workers=1 if simulate else 8, timeout=1500)
     v.add_tlc(g)
@@ -326,6 +326,7 @@ def c02(tier, seed):
     scs = canvas_gen("C02", v, "frame", 2, 28 if th else 10, salt=seed)
     scs += canvas_gen("C02", v, "frame", 3, 4, draws=2, simulate=4000 if th else 600, depth=6, seed=seed, salt=seed)
     scs += canvas_gen("C02", v, "clip", 3, 3, simulate=2000 if th else 300, depth=5, seed=seed + 1, salt=seed)
+    scs += canvas_gen("C02", v, "frame", 3, 3, draws=2, simulate=1500 if th else 200, depth=6, seed=seed + 2, salt=seed, size=(9, 6))
     v.exhaustive = True
     canvas_validate("C02", v, scs, "all", {"C02", "C02N", "C06L"})
     v.samples = [scs[0], scs[-1]]
@@ -344,6 +345,7 @@ def c03(tier, seed):
     scs += canvas_gen("C03", v, "frame", 3, 4, draws=2, simulate=4000 if th else 600, depth=6, seed=seed, salt=seed + 3)
     scs += canvas_gen("C03", v, "layer", 3, 3, simulate=2000 if th else 300, depth=6, seed=seed + 1, salt=seed + 3)
     scs += canvas_gen("C03", v, "layerclip", 3, 4 if th else 1, salt=seed + 4)
+    scs += canvas_gen("C03", v, "frame", 3, 3, draws=2, simulate=1500 if th else 200, depth=6, seed=seed + 2, salt=seed + 5, size=(9, 6))
     v.exhaustive = True
     canvas_validate("C03", v, scs, "all", {"C03"})
     v.samples = [scs[0], scs[-1]]
@@ -692,8 +694,14 @@ def c04(tier, seed):
     if not th:
         scs = [s for k, s in enumerate(scs) if k % 3 == seed % 3] if len(scs) > 900 else scs
     v.exhaustive = th
+    scs += extra_scenarios("C04")
     simple_validate("C04", v, scs, "all", "Trace_Stroke", sigfn=stroke_sig, timeout=3000)
-    v.samples = [scs[0], scs[-1]]
+    # curved paths stroked with round joins (margin 1 px): the tube of half the width around the curve
+    g, cs = gen_scenarios("C04", "Gen_Curve", env={"FAM": "cstroke", "NOPS": 4, "NVAR": 1, "SALT": seed}, simulate=1500 if th else 120,
+                          depth=12, seed=seed + 3, workers=1)
+    v.add_tlc(g)
+    simple_validate("C04", v, cs, "curved", "Trace_StrokeCurve", sigfn=stroke_sig, timeout=3000)
+    v.samples = [scs[0], scs[-1], cs[0]]
     return v.finish()
 
 
